@@ -271,7 +271,17 @@ def isinstance_(I, v, typ):
             return z3.BoolVal(False)
     if isinstance(typ, VConst) and typ.kind == 'class':
         if isinstance(v, VObj):
-            return z3.BoolVal(I.prog.issubclass(v.cls, typ.py))
+            if I.prog.issubclass(v.cls, typ.py):
+                return z3.BoolVal(True)
+            if isinstance(typ.py, ClassInfo) and isinstance(v.cls, ClassInfo) and I.prog.issubclass(typ.py, v.cls) \
+                    and I.reg.is_abstract_class(v.cls):
+                # an object known only by an abstract base may be an instance of any subclass: undetermined
+                key = ('isinst', id(v), typ.py.ident)
+                cache = I.path.instances
+                if key not in cache:
+                    cache[key] = I.path.fresh_bool('isinstance')
+                return cache[key]
+            return z3.BoolVal(False)
         return z3.BoolVal(False)
     if isinstance(v, VOpaque):
         raise OutOfSubset('isinstance of opaque value')
